@@ -673,10 +673,10 @@ def exhaustive_plan(tier):
         plan.update({k: (1, 2) for k in ('m:PROPFIND',) if k in plan})
         return [(2, plan)]
     plan = {'route': (3, 3), 'sink': (2, 3), 'unrouted': (2, 3), 'nomethod': (2, 3), 'options': (2, 3),
-            'field': (2, 3), 'suffix': (1, 2), 'falsy': (2, 3)}
+            'field': (2, 3), 'suffix': (1, 2), 'falsy': (1, 2)}
     plan.update({k: (1, 2) for k in method_kinds()})
     return [(2, plan),
-            (3, {'route': (2, 2), 'sink': (2, 2), 'unrouted': (1, 2), 'nomethod': (1, 2), 'field': (1, 2)})]
+            (3, {'route': (2, 2), 'sink': (1, 2), 'unrouted': (1, 2), 'nomethod': (1, 2), 'field': (1, 2)})]
 
 
 def exhaustive(rec):
@@ -698,8 +698,9 @@ def exhaustive(rec):
                     app, ctx = build_app(script, stack)
                     for kind, (mf, reduced_from) in plan.items():
                         sites = reachable_sites(script, kind)
-                        for actions, hactions in placements(sites, mf, reduced_from, 0 if rec.tier == 'quick' else 4,
-                                                            need_mw=rec.tier == 'quick' and len(comps) == 2):
+                        for actions, hactions in placements(
+                                sites, mf, reduced_from, 0 if (rec.tier == 'quick' or kind == 'route') else 4,
+                                need_mw=(rec.tier == 'quick' and len(comps) == 2) or len(comps) == 3):
                             case = {'stack': stack, 'kind': kind, 'actions': actions, 'hactions': hactions}
                             check_case(rec, script, case, app, ctx)
                             rec.case(case_key(skey, case) if actions else None)
